@@ -433,6 +433,8 @@ class W3PerDocReader(base.PerDocumentReader):
         lbyte = reader[docnum]
         if lbyte:
             return byte_to_length(lbyte)
+        # The document has no content in this field
+        return default
 
     def field_length(self, fieldname):
         return self._segment._fieldlengths.get(fieldname, 0)
@@ -443,7 +445,11 @@ class W3PerDocReader(base.PerDocumentReader):
 
         lenfield = _lenfield(fieldname)
         reader = self._cached_reader(lenfield, LENGTHS_COLUMN)
-        length = byte_to_length(op(reader))
+        if reader is None:
+            # No document in this segment has content in this field
+            length = 0
+        else:
+            length = byte_to_length(op(reader))
         cache[fieldname] = length
         return length
 
